@@ -9,10 +9,12 @@ SPEC = dict(
     harness=['h_poly.c', 'h_poly_ext.c'],
     # the default (double) build runs the full harness; the other two real widths run a compact type-generic companion
     configs=lambda tier: [dict(name='f64'), dict(name='f32', real=4, harness=['h_poly_w.c']), dict(name='f80', real=16, harness=['h_poly_w.c']),
-                          dict(name='cxx', harness=['h_cxxw.c', 'h_cxxw_shim.cc'], hflags=['-DVF_CXXW=15'], nworkers=4)] +
+                          dict(name='cxx', harness=['h_cxxw.c', 'h_cxxw_shim.cc'], hflags=['-DVF_CXXW=15'], nworkers=4),
+                          # coefficient vectors longer than 2^32 over a sparsely backed mapping (unsanitised)
+                          dict(name='giant', harness=['h_poly_giant.c'], flavour='fast', nworkers=2 if tier == 'quick' else 4)] +
                          # ISA axis: with -mfma <math.h> defines FP_FAST_FMA*, which selects other arms of conditional code (only where the CPU has it)
                          ([dict(name='f80-fma', real=16, harness=['h_poly_w.c'], cflags=['-mfma'], nworkers=3)] if _HAS_FMA else []),
-    parallel_configs=5,
+    parallel_configs=6,
     workers={'quick': 12, 'thorough': 36},
     level='exploration',
     rule='boundary data sets are drawn at random: main regime = every boundary value non-zero, sign random, magnitude log-uniform in '
@@ -25,7 +27,7 @@ SPEC = dict(
          'in which at least one trajectory was fully judged (8 decades x (16+64+256) patterns = 2688 possible) - NOT the number of '
          'data sets; a_poly_* vectors do not contribute to it.',
     exhaustive={'quick': None, 'thorough': None},
-    require=[
+    require=['giant-coefficient-vector', 
         'a_trajpoly3::gen(3 args)', 'a_trajpoly5::gen(3 args)', 'a_trajpoly7::gen(3 args)', 'a_trajpoly7::gen(9 args)', 'a_trajpoly3::pos', 'a_trajpoly5::vel', 'a_trajpoly7::jer', 'a_trajpoly7::c3', 'a_trajpoly5::c2', 'a_trajpoly3::c0',
         # time 0
         't0/pos==p0-bitwise', 't0/vel==v0-bitwise', 't0/acc==a0-bitwise', 't0/jer==j0-4ulp',
